@@ -274,6 +274,8 @@ struct Net {
 	mgr_snaps: Vec<Vec<Vec<u8>>>,
 	/// snapshot taken while no monitor update of that node was in flight (nothing was being held)
 	mgr_clean: Vec<Vec<bool>>,
+	/// snapshot index remembered by a `save` script step (the manager the application wrote last)
+	saved_idx: Vec<Option<usize>>,
 	node_cfgs: &'static Vec<NodeCfg<'static>>,
 	txids: Arc<Mutex<HashMap<[u8; 32], (usize, usize, u64, bool)>>>,
 }
@@ -885,9 +887,18 @@ impl Net {
 				for i in 0..n { connect_blocks(&self.nodes[i], k); }
 				self.drain();
 			},
+			"save" => {
+				let i = op["node"].as_u64().unwrap() as usize;
+				if i < n { self.saved_idx[i] = Some(self.mgr_snaps[i].len() - 1); } else { did = false; }
+			},
 			"crash" | "reload" => {
 				let i = op["node"].as_u64().unwrap() as usize;
-				if i < n { self.crash(i, name == "reload", op["mgr"].as_u64().unwrap_or(0) as usize, op["mon"].as_str().unwrap_or("durable"), rng); } else { did = false; }
+				if i < n {
+					let back = if op["mgr"].as_str() == Some("saved") {
+						match self.saved_idx[i] { Some(k) => self.mgr_snaps[i].len() - 1 - k, None => 0 }
+					} else { op["mgr"].as_u64().unwrap_or(0) as usize };
+					self.crash(i, name == "reload", back, op["mon"].as_str().unwrap_or("durable"), rng);
+				} else { did = false; }
 			},
 			"proj" => { let fin = op["final"].as_bool().unwrap_or(false); for i in 0..n { self.proj_ext(i, fin, false); } if fin { self.scorer_round_trip(); } },
 			_ => { did = false; },
@@ -1103,7 +1114,7 @@ fn build_net(run: u64, cfg: &Value, log: &Log) -> Net {
 	let mut net = Net {
 		nodes, cfgs, persisters, queues: HashMap::new(), connected, log: log.clone(), chans, hashes, points: Vec::new(),
 		pays: Vec::new(), scids, chan_ids, run, feerate: vec![feerate0; n], executed: 0, skipped: 0,
-		funding_txids: Vec::new(), extra_funding: Vec::new(), extra_broadcast: Vec::new(), mgr_snaps: vec![Vec::new(); n], mgr_clean: vec![Vec::new(); n], node_cfgs, txids,
+		funding_txids: Vec::new(), extra_funding: Vec::new(), extra_broadcast: Vec::new(), mgr_snaps: vec![Vec::new(); n], mgr_clean: vec![Vec::new(); n], saved_idx: vec![None; n], node_cfgs, txids,
 	};
 	for i in 0..n {
 		let _ = net.nodes[i].node.get_and_clear_needs_persistence();
